@@ -223,3 +223,350 @@ theorem loop_exit_final (c : Cfg K S σ) :
 
 end
 end PdeVerif.Controller
+
+namespace PdeVerif.Controller
+open PdeVerif
+
+section
+variable {K : Type} [Field K] [LinearOrder K] [IsStrictOrderedRing K] [FloorRing K]
+variable {S σ : Type}
+
+/-! ### `TrackerCollection.handle` in closed form -/
+
+/-- what `handle` raises is the tracker's behaviour at its current call number, for every class -/
+theorem handle_err (tr : Tracker K S σ) (t : K) (u : S) :
+    (tr.handle t u).2 = tr.stopAt tr.calls t u := by
+  unfold Tracker.handle
+  cases tr.kind <;> cases tr.stopAt tr.calls t u <;> rfl
+
+/-- the tracker after it was handled at `t`: recorded, call counted, interrupt advanced -/
+def served (nxt : σ → K → σ × Option K) (t : K) (u : S) (tr : Tracker K S σ) : Tracker K S σ :=
+  { (tr.handle t u).1 with sched := (nxt tr.sched t).1, due := (nxt tr.sched t).2 }
+
+/-- trackers after a `handle` of the collection: exactly the due ones were served -/
+theorem handleAll_trackers (nxt : σ → K → σ × Option K) (atol t : K) (u : S) :
+    ∀ (trs : List (Tracker K S σ)) (i : Nat), (handleAll nxt atol t u i trs).1 =
+      trs.map (fun tr => if isDue tr.due atol t then served nxt t u tr else tr) := by
+  intro trs
+  induction trs with
+  | nil => intro i; rfl
+  | cons tr rest ih =>
+    intro i
+    unfold handleAll
+    split_ifs with hd
+    · simp only [List.map_cons, hd, if_true, ih (i + 1)]; rfl
+    · simp only [List.map_cons, hd, ih (i + 1)]; rfl
+
+/-- the calls made by a `handle` of the collection: every due tracker, in list order, at `(t, u)` -
+whether or not some of them raise -/
+theorem handleAll_events (nxt : σ → K → σ × Option K) (atol t : K) (u : S) :
+    ∀ (trs : List (Tracker K S σ)) (i : Nat), (handleAll nxt atol t u i trs).2.1 =
+      ((trs.zipIdx i).filter (fun p => isDue p.1.due atol t)).map (fun p => (p.2, t, u)) := by
+  intro trs
+  induction trs with
+  | nil => intro i; rfl
+  | cons tr rest ih =>
+    intro i
+    unfold handleAll
+    rw [List.zipIdx_cons]
+    split_ifs with hd
+    · simp only [List.filter_cons, hd, if_true, List.map_cons, ih (i + 1)]
+    · simp only [List.filter_cons, hd, ih (i + 1)]; rfl
+
+theorem lastErr_none (x : Option StopReq) : lastErr none x = x := by cases x <;> rfl
+
+theorem lastErr_some_getLast (r : StopReq) (l : List StopReq) :
+    lastErr (some r) l.getLast? = (r :: l).getLast? := by
+  cases l with
+  | nil => rfl
+  | cons a l =>
+    rw [List.getLast?_cons_cons]
+    cases h : (a :: l).getLast? with
+    | none => simp at h
+    | some x => rfl
+
+/-- the exception a `handle` of the collection re-raises: the one of the last due tracker that
+raised -/
+theorem handleAll_err (nxt : σ → K → σ × Option K) (atol t : K) (u : S) :
+    ∀ (trs : List (Tracker K S σ)) (i : Nat), (handleAll nxt atol t u i trs).2.2 =
+      ((trs.filter (fun tr => isDue tr.due atol t)).filterMap
+        (fun tr => tr.stopAt tr.calls t u)).getLast? := by
+  intro trs
+  induction trs with
+  | nil => intro i; rfl
+  | cons tr rest ih =>
+    intro i
+    unfold handleAll
+    split_ifs with hd
+    · simp only [List.filter_cons, hd, if_true, ih (i + 1), handle_err]
+      cases hs : tr.stopAt tr.calls t u with
+      | none => simp only [List.filterMap_cons, hs, lastErr_none]
+      | some r => simp only [List.filterMap_cons, hs, lastErr_some_getLast]
+    · simp only [List.filter_cons, hd, ih (i + 1)]; rfl
+
+theorem handleAll_length (nxt : σ → K → σ × Option K) (atol t : K) (u : S)
+    (trs : List (Tracker K S σ)) (i : Nat) : (handleAll nxt atol t u i trs).1.length = trs.length := by
+  rw [handleAll_trackers]; simp
+
+/-! ### the result of the main loop: how it can end -/
+
+/-- **master lemma for the main loop.**  For a predicate `P` of loop-head states that is preserved
+by a continuing iteration, the loop ends in one of three ways: regularly at a head state
+satisfying `P` where the loop condition fails; out of fuel at a head state satisfying `P`; or
+inside the body at a head state `st'` satisfying `P` whose `handle` raised, in the state
+`halted c st'`. -/
+theorem loop_result (c : Cfg K S σ) (P : LState K S σ → Prop)
+    (hadv : ∀ st, P st → st.t < c.tEnd - c.eps * c.dt → (mainHandle c st).2.2 = none → P (advance c st)) :
+    ∀ (fuel : Nat) (st : LState K S σ), P st →
+      ((loop c fuel st).2 = .final ∧ P (loop c fuel st).1 ∧
+          ¬ (loop c fuel st).1.t < c.tEnd - c.eps * c.dt) ∨
+      ((loop c fuel st).2 = .fuel ∧ P (loop c fuel st).1) ∨
+      (∃ st' r, P st' ∧ st'.t < c.tEnd - c.eps * c.dt ∧ (mainHandle c st').2.2 = some r ∧
+          loop c fuel st = (halted c st', .stopped r)) := by
+  intro fuel
+  induction fuel with
+  | zero => intro st h; right; left; exact ⟨rfl, h⟩
+  | succ n ih =>
+    intro st h
+    unfold loop
+    rcases iterOnce_cases c st with ⟨hc, e⟩ | ⟨hc, r, hr, e⟩ | ⟨hc, hn, e⟩
+    · rw [e]; left; exact ⟨rfl, h, hc⟩
+    · rw [e]; right; right; exact ⟨st, r, h, hc, hr, rfl⟩
+    · rw [e]; exact ih _ (hadv st h hc hn)
+
+end
+end PdeVerif.Controller
+
+namespace PdeVerif.Controller
+open PdeVerif
+
+section
+variable {K : Type} [Field K] [LinearOrder K] [IsStrictOrderedRing K] [FloorRing K]
+variable {S σ : Type}
+
+/-! ### accounting invariant, final handle (shared by C07 and C08) -/
+
+/-- the run reached the `else:` branch of the main loop (possibly stopped by the final handle) -/
+def Exit.reachedEnd : Exit → Prop
+  | .final => True
+  | .finalStopped _ => True
+  | _ => False
+
+/-- the number of steps after which the loop condition `t < t_end - eps*dt` fails:
+`⌈(t_end - t_start)/dt - eps⌉` (0 for an empty or negative range) -/
+def finalStepCount (c : Cfg K S σ) : Nat :=
+  (Int.ceil ((c.tEnd - c.tStart) / c.dt - c.eps)).toNat
+
+/-- the state after `n` steps: step `i` is applied at time `t_start + i*dt` -/
+def stateAfter (c : Cfg K S σ) (u0 : S) (n : Nat) : S := stepN c.step c.dt c.tStart n 0 u0
+
+/-- start of the main loop -/
+def initState (c : Cfg K S σ) (u0 : S) (trs : List (Tracker K S σ)) : LState K S σ :=
+  { t := c.tStart, u := u0, steps := 0, trs := trs, trace := [], iters := 0 }
+
+/-- accounting invariant of the loop: time on the step lattice, state = iterate -/
+structure Acc (c : Cfg K S σ) (u0 : S) (st : LState K S σ) : Prop where
+  lattice : st.t = c.tStart + st.steps * c.dt
+  iterate : st.u = stateAfter c u0 st.steps
+
+theorem acc_init (c : Cfg K S σ) (u0 : S) (trs : List (Tracker K S σ)) :
+    Acc c u0 (initState c u0 trs) :=
+  ⟨by simp [initState], rfl⟩
+
+theorem acc_advance (c : Cfg K S σ) (u0 : S) (st : LState K S σ) (h : Acc c u0 st) :
+    Acc c u0 (advance c st) := by
+  obtain ⟨h1, h2⟩ := h
+  have hn := one_le_nsteps st.t (clip (nextAction (mainHandle c st).1) c.tEnd) c.dt
+  constructor
+  · show stepperTime st.t c.dt _ = c.tStart + ((st.steps + _ : Nat) : K) * c.dt
+    rw [stepperTime_eq _ _ _ hn, h1]; push_cast; ring
+  · show stepN c.step c.dt st.t _ 0 st.u = stateAfter c u0 (st.steps + _)
+    unfold stateAfter at h2 ⊢
+    rw [h1, stepN_shift, h2, stepN_add]
+    simp
+
+theorem acc_halted (c : Cfg K S σ) (u0 : S) (st : LState K S σ) (h : Acc c u0 st) :
+    Acc c u0 (halted c st) := ⟨h.1, h.2⟩
+
+theorem loop_acc (c : Cfg K S σ) (u0 : S) (fuel : Nat) (st : LState K S σ) (h : Acc c u0 st) :
+    Acc c u0 (loop c fuel st).1 :=
+  loop_invariant' c (Acc c u0) (fun st h _ _ => acc_advance c u0 st h)
+    (fun st h _ _ _ => acc_halted c u0 st h) fuel st h
+
+/-! ### the final handle and finalize do not touch time, state and step count -/
+
+theorem finalHandle_t (c : Cfg K S σ) (p : LState K S σ × Exit) : (finalHandle c p).1.t = p.1.t := by
+  rcases p with ⟨st, e⟩; cases e <;> rfl
+
+theorem finalHandle_u (c : Cfg K S σ) (p : LState K S σ × Exit) : (finalHandle c p).1.u = p.1.u := by
+  rcases p with ⟨st, e⟩; cases e <;> rfl
+
+theorem finalHandle_steps (c : Cfg K S σ) (p : LState K S σ × Exit) :
+    (finalHandle c p).1.steps = p.1.steps := by
+  rcases p with ⟨st, e⟩; cases e <;> rfl
+
+/-- the main loop itself never produces the `finalStopped` exit -/
+theorem loop_ne_finalStopped (c : Cfg K S σ) (r : StopReq) :
+    ∀ (fuel : Nat) (st : LState K S σ), (loop c fuel st).2 ≠ .finalStopped r := by
+  intro fuel
+  induction fuel with
+  | zero => intro st; simp [loop]
+  | succ n ih =>
+    intro st
+    unfold loop
+    rcases iterOnce_cases c st with ⟨_, e⟩ | ⟨hc, r', hr, e⟩ | ⟨hc, hn, e⟩
+    · rw [e]; simp
+    · rw [e]; simp
+    · rw [e]; exact ih _
+
+theorem finalHandle_reachedEnd (c : Cfg K S σ) (p : LState K S σ × Exit)
+    (hp : ∀ r, p.2 ≠ .finalStopped r) : (finalHandle c p).2.reachedEnd ↔ p.2 = .final := by
+  rcases p with ⟨st, e⟩
+  cases e with
+  | final =>
+    simp only [finalHandle, iff_true]
+    cases (handleAll c.nxt (c.eps * c.dt) st.t st.u 0 st.trs).2.2 <;> trivial
+  | stopped r => simp [finalHandle, Exit.reachedEnd]
+  | finalStopped r => exact absurd rfl (hp r)
+  | fuel => simp [finalHandle, Exit.reachedEnd]
+
+theorem finalHandle_fuel (c : Cfg K S σ) (p : LState K S σ × Exit) :
+    (finalHandle c p).2 = .fuel ↔ p.2 = .fuel := by
+  rcases p with ⟨st, e⟩
+  cases e with
+  | final =>
+    simp only [finalHandle]
+    cases (handleAll c.nxt (c.eps * c.dt) st.t st.u 0 st.trs).2.2 <;> simp
+  | stopped r => simp [finalHandle]
+  | finalStopped r => simp [finalHandle]
+  | fuel => simp [finalHandle]
+
+theorem clip_le (a : Option K) (tEnd : K) : clip a tEnd ≤ tEnd := by
+  unfold clip
+  cases a with
+  | none => exact le_refl _
+  | some x => simp only; split_ifs with h <;> [exact le_refl _; exact not_lt.mp h]
+
+/-- the loop condition on the lattice: `k` is below the final step count -/
+theorem cond_iff_lt (c : Cfg K S σ) (hdt : 0 < c.dt) (k : Nat) :
+    c.tStart + (k : K) * c.dt < c.tEnd - c.eps * c.dt ↔
+      (k : Int) < Int.ceil ((c.tEnd - c.tStart) / c.dt - c.eps) := by
+  rw [Int.lt_ceil]
+  have e : (c.tEnd - c.tStart) / c.dt - c.eps = (c.tEnd - c.tStart - c.eps * c.dt) / c.dt := by
+    field_simp
+  rw [e, lt_div_iff₀ hdt]
+  push_cast
+  constructor <;> intro h <;> linarith
+
+
+end
+end PdeVerif.Controller
+
+namespace PdeVerif.Controller
+open PdeVerif
+
+section
+variable {K : Type} [Field K] [LinearOrder K] [IsStrictOrderedRing K] [FloorRing K]
+variable {S σ : Type}
+
+/-! ### the shape of a whole run -/
+
+/-- the final `handle` (tolerance `stepper_atol`) at the loop state `st` -/
+def finalH (c : Cfg K S σ) (st : LState K S σ) :=
+  handleAll c.nxt (c.eps * c.dt) st.t st.u 0 st.trs
+
+/-- the three ways a run can end, described through the last loop-head state `st` -/
+def RunShape (c : Cfg K S σ) (R : Result K S σ) (st : LState K S σ) : Prop :=
+  (R.exit = .fuel ∧ R.trace = st.trace ∧ R.trackers = finalizeAll st.trs) ∨
+  (¬ st.t < c.tEnd - c.eps * c.dt ∧ R.trace = st.trace ++ (finalH c st).2.1 ∧
+      R.trackers = finalizeAll (finalH c st).1 ∧
+      R.exit = (match (finalH c st).2.2 with
+        | some r => Exit.finalStopped r
+        | none => Exit.final)) ∨
+  (st.t < c.tEnd - c.eps * c.dt ∧ ∃ r, (mainHandle c st).2.2 = some r ∧ R.exit = .stopped r ∧
+      R.trace = st.trace ++ (mainHandle c st).2.1 ∧ R.trackers = finalizeAll (mainHandle c st).1)
+
+/-- **shape of a run.**  For every predicate `P` of loop-head states that holds initially and is
+preserved by continuing iterations there is a head state `st` with `P st` from which the run
+ended: time, state and step count of the result are those of `st`, and trace, trackers and exit
+are obtained by the final handle (`else:` branch), by the raising handle (`except`), or not at
+all (fuel). -/
+theorem run_shape (c : Cfg K S σ) (P : LState K S σ → Prop)
+    (hadv : ∀ st, P st → st.t < c.tEnd - c.eps * c.dt → (mainHandle c st).2.2 = none → P (advance c st))
+    (u0 : S) (trs : List (Tracker K S σ)) (fuel : Nat) (h0 : P (initState c u0 trs)) :
+    ∃ st : LState K S σ, P st ∧ (runFuel c u0 trs fuel).tFinal = st.t ∧
+      (runFuel c u0 trs fuel).state = st.u ∧ (runFuel c u0 trs fuel).steps = st.steps ∧
+      RunShape c (runFuel c u0 trs fuel) st := by
+  have key := loop_result c P hadv fuel (initState c u0 trs) h0
+  rcases hp : loop c fuel (initState c u0 trs) with ⟨st, e⟩
+  have hp' : loop c fuel { t := c.tStart, u := u0, steps := 0, trs := trs, trace := [], iters := 0 }
+      = (st, e) := hp
+  rw [hp] at key
+  rcases key with ⟨hf, hP, hc⟩ | ⟨hf, hP⟩ | ⟨st', r, hP, hc, hr, he⟩
+  · simp only at hf hP hc
+    subst hf
+    refine ⟨st, hP, ?_, ?_, ?_, ?_⟩
+    · simp only [runFuel, hp', finalHandle]
+    · simp only [runFuel, hp', finalHandle]
+    · simp only [runFuel, hp', finalHandle]
+    · right; left
+      refine ⟨hc, ?_, ?_, ?_⟩
+      · simp only [runFuel, hp', finalHandle, finalH]
+      · simp only [runFuel, hp', finalHandle, finalH]
+      · simp only [runFuel, hp', finalHandle, finalH]
+        cases (handleAll c.nxt (c.eps * c.dt) st.t st.u 0 st.trs).2.2 <;> rfl
+  · simp only at hf hP
+    subst hf
+    refine ⟨st, hP, ?_, ?_, ?_, ?_⟩
+    · simp only [runFuel, hp', finalHandle]
+    · simp only [runFuel, hp', finalHandle]
+    · simp only [runFuel, hp', finalHandle]
+    · left
+      refine ⟨?_, ?_, ?_⟩
+      · simp only [runFuel, hp', finalHandle]
+      · simp only [runFuel, hp', finalHandle]
+      · simp only [runFuel, hp', finalHandle]
+  · obtain ⟨h1, h2⟩ := Prod.mk.inj he
+    subst h1 h2
+    refine ⟨st', hP, ?_, ?_, ?_, ?_⟩
+    · simp only [runFuel, hp', finalHandle]; rfl
+    · simp only [runFuel, hp', finalHandle]; rfl
+    · simp only [runFuel, hp', finalHandle]; rfl
+    · right; right
+      refine ⟨hc, r, hr, ?_, ?_, ?_⟩
+      · simp only [runFuel, hp', finalHandle]
+      · simp only [runFuel, hp', finalHandle]; rfl
+      · simp only [runFuel, hp', finalHandle]; rfl
+
+/-- the calls of one `handle` of the collection are made in list order at the same `(t, u)` -/
+theorem handleAll_events_sorted (nxt : σ → K → σ × Option K) (atol t : K) (u : S) :
+    ∀ (trs : List (Tracker K S σ)) (i : Nat),
+      ((handleAll nxt atol t u i trs).2.1).Pairwise (fun a b => a.1 < b.1) ∧
+      ∀ e ∈ (handleAll nxt atol t u i trs).2.1, i ≤ e.1 ∧ e.1 < i + trs.length ∧ e.2.1 = t ∧ e.2.2 = u := by
+  intro trs
+  induction trs with
+  | nil => intro i; simp [handleAll]
+  | cons tr rest ih =>
+    intro i
+    obtain ⟨h1, h2⟩ := ih (i + 1)
+    unfold handleAll
+    split_ifs with hd
+    · simp only [List.pairwise_cons, List.mem_cons, List.length_cons]
+      refine ⟨⟨?_, h1⟩, ?_⟩
+      · intro e he
+        have := (h2 e he).1
+        show i < e.1
+        omega
+      · intro e he
+        rcases he with rfl | he
+        · exact ⟨le_refl _, by omega, rfl, rfl⟩
+        · obtain ⟨a, b, c', d⟩ := h2 e he
+          exact ⟨by omega, by omega, c', d⟩
+    · simp only [List.length_cons]
+      refine ⟨h1, ?_⟩
+      intro e he
+      obtain ⟨a, b, c', d⟩ := h2 e he
+      exact ⟨by omega, by omega, c', d⟩
+
+end
+end PdeVerif.Controller
